@@ -1,8 +1,318 @@
 /-
-  C03 — transferable-vote counts conserve votes and eliminate only the lowest.  (theorems follow)
+  C03 — transferable-vote counts conserve votes and eliminate only the lowest.
+  Property theorems only (helper lemmas live in VotelibProofs/Lemmas/STV*.lean).  Namespace VL.C03.
+
+  Reading.  A *state* is an allocation a count starts from: the initial allocation and every
+  `new_allocation` returned by `next_count` that is not the `{}` marker of the elect-all-remaining shortcut
+  (`St.final = false`).  `Reach E cfg inp ds st` = `st` is the loop state of `nth_count` after some number of
+  counts (any number: the theorems are by induction over counts).  Exhausted weight = the `None` pile plus
+  the empty ballots (`emptyWeight`), seats filled by quota = `St.byQuota`.  `E` is the transferer:
+  `gregory`, or `hare` fed with an arbitrary stream of `distribute_n_random` answers of which the model
+  *checks the DrawOK contract at every draw* (a run that is `.ok` has only seen answers inside the contract;
+  see `hare_draws_in_contract`).  Every theorem holds for all profiles, seat numbers, configurations,
+  previous gains and maximum seats (selector and distributor form) — no size bound anywhere.
 -/
-import VotelibModel.STV
+import VotelibProofs.Lemmas.STVRun
+import VotelibModel.Gen.Quota
 namespace VL.C03
 open VL VL.STV
+
+/-! ## the transferers -/
+
+/-- **`Gregory._subtract` scales a pile exactly**: a pile holding `t ≥ n` keeps `t − n`. -/
+theorem gregory_subtract_exact {p p' : Pile} {n : Rat} (h : gregorySubtract p n = .ok p') (hn : n ≤ pileTotal p) :
+    pileTotal p' = pileTotal p - n := gregorySubtract_total h hn
+
+/-- Gregory's equal-rank split gives every target exactly `w / #targets`, and the shares add up to `w`. -/
+theorem gregory_split_equal (ts : List Cand) (w : Rat) (hts : ts ≠ []) :
+    (∀ x ∈ gregorySplit ts w, x.2 = w / (ts.length : Rat)) ∧ (gregorySplit ts w).map (·.1) = ts ∧
+    ((gregorySplit ts w).map (·.2)).sum = w := by
+  refine ⟨gregorySplit_equal ts w, by simp [gregorySplit, List.map_map, Function.comp_def], ?_⟩
+  exact gregory_ok.split_sum (ds := []) rfl hts
+
+/-- Both transferers meet the specification the count theorems rely on (exact subtraction, exact split,
+    no negative weight, no new ballot). -/
+theorem gregory_meets_spec : EngineOK gregory := gregory_ok
+theorem hare_meets_spec : EngineOK hare := hare_ok
+
+/-- A Hare subtraction that goes through consumed an answer inside the DrawOK contract (non-negative
+    amounts for papers of the pile, none above the paper's weight, adding up to the number asked for),
+    and removed exactly that. -/
+theorem hare_draws_in_contract {p p' : Pile} {n : Rat} {ds ds' : List Draw}
+    (h : hareSubtract p n ds = .ok (p', ds')) :
+    ∃ ans, ds = .papers ans :: ds' ∧ papersOK ans p n = true ∧ p' = hareApply ans p := by
+  unfold hareSubtract at h
+  split at h
+  · rename_i ans ds1
+    split at h
+    · rename_i hok
+      injection h with h; injection h with h1 h2
+      exact ⟨ans, by rw [h2], hok, h1.symm⟩
+    · cases h
+  · cases h
+
+/-- … and an answer outside the contract is the outcome `DrawContract`, never a silently wrong count. -/
+theorem hare_draw_outside_contract {p : Pile} {n : Rat} {ans : List (Ballot × Rat)} {ds : List Draw}
+    (h : papersOK ans p n = false) : hareSubtract p n (.papers ans :: ds) = .error drawErr := by
+  simp [hareSubtract, h]
+
+/-! ## conservation -/
+
+/-- **Conservation, every count.**  After any number of counts, the votes held by continuing candidates
+    and the exhausted pile (`held`), plus the empty ballots, plus one quota per seat filled by quota, equal
+    the votes cast — exactly. -/
+theorem conservation {E : Engine} (hE : EngineOK E) {cfg : Cfg} {inp : Input} {ds : List Draw} {st : St}
+    (hr : Reach E cfg inp ds st) (hf : st.final = false) :
+    held st.alloc + emptyWeight inp.votes + runQuota cfg inp * (st.byQuota : Rat) = totalVotes inp.votes :=
+  (reach_inv hE hr).cons hf
+
+/-- the same for the executable loop: `k` counts of `nth_count`, any `k` -/
+theorem conservation_runCounts {E : Engine} (hE : EngineOK E) {cfg : Cfg} {inp : Input} {ds : List Draw} {k : Nat}
+    {st0 st : St} (h0 : initState E inp ds = .ok st0) (hk : runCounts E cfg inp k st0 = .ok st)
+    (hf : st.final = false) :
+    held st.alloc + emptyWeight inp.votes + runQuota cfg inp * (st.byQuota : Rat) = totalVotes inp.votes :=
+  conservation hE ((Reach.init h0).runCounts hk) hf
+
+theorem conservation_gregory {cfg : Cfg} {inp : Input} {ds : List Draw} {st : St}
+    (hr : Reach gregory cfg inp ds st) (hf : st.final = false) :
+    held st.alloc + emptyWeight inp.votes + runQuota cfg inp * (st.byQuota : Rat) = totalVotes inp.votes :=
+  conservation gregory_ok hr hf
+
+/-- Hare (random) transfer under the DrawOK contract -/
+theorem conservation_hare {cfg : Cfg} {inp : Input} {ds : List Draw} {st : St}
+    (hr : Reach hare cfg inp ds st) (hf : st.final = false) :
+    held st.alloc + emptyWeight inp.votes + runQuota cfg inp * (st.byQuota : Rat) = totalVotes inp.votes :=
+  conservation hare_ok hr hf
+
+/-- one count: what the new allocation holds plus the quotas of the seats just filled is what the old held -/
+theorem conservation_step {E : Engine} (hE : EngineOK E) {cfg : Cfg} {inp : Input} {ds : List Draw} {st : St}
+    (hr : Reach E cfg inp ds st) (hf : st.final = false) {out : CountOut} {ds' : List Draw}
+    (h : nextCount E cfg st.alloc inp.nSeats (totalVotes inp.votes) st.seats inp.maxS st.draws = .ok (out, ds'))
+    (hs : out.shortcut = false) :
+    held out.alloc + runQuota cfg inp * (sumSeats out.elected : Rat) = held st.alloc :=
+  (count_inv hE ((reach_inv hE hr).keys hf) h hs).held_eq
+
+/-- every state printed by the count-by-count trace of the driver is such a state -/
+theorem trace_states_reached {E : Engine} {cfg : Cfg} {inp : Input} {ds : List Draw} {st0 : St}
+    (h0 : initState E inp ds = .ok st0) (k : Nat) :
+    ∀ s ∈ (traceGo E cfg inp k st0 []).1, Reach E cfg inp ds s :=
+  traceGo_reach k st0 [] (.init h0) (fun _ h => by cases h)
+
+/-! ## no negative weight -/
+
+/-- **No ballot weight is negative**, at any count (vote counts of the profile non-negative). -/
+theorem weights_nonneg {E : Engine} (hE : EngineOK E) {cfg : Cfg} {inp : Input} {ds : List Draw} {st : St}
+    (hwf : WFVotes inp.votes) (hr : Reach E cfg inp ds st) (hf : st.final = false) :
+    ∀ hp ∈ st.alloc, ∀ bw ∈ hp.2, 0 ≤ bw.2 :=
+  (reach_inv hE hr).nonneg hwf hf
+
+/-! ## a ballot rests with its highest-ranked continuing candidate -/
+
+/-- what `topCont` is: the first candidate on the ballot that continues, `none` iff none continues -/
+theorem topCont_some_iff {b : Ballot} {cont : List Cand} {c : Cand} :
+    topCont b cont = some c ↔
+      ∃ pre post, ballotCands b = pre ++ c :: post ∧ c ∈ cont ∧ ∀ x ∈ pre, x ∉ cont := by
+  unfold topCont
+  rw [List.find?_eq_some_iff_append]
+  simp only [decide_eq_true_eq, Bool.not_eq_eq_eq_not, Bool.not_true, decide_eq_false_iff_not]
+  constructor
+  · rintro ⟨hc, pre, post, he, hpre⟩; exact ⟨pre, post, he, hc, hpre⟩
+  · rintro ⟨pre, post, he, hc, hpre⟩; exact ⟨hc, pre, post, he, hpre⟩
+
+theorem topCont_none_iff {b : Ballot} {cont : List Cand} :
+    topCont b cont = none ↔ ∀ x ∈ ballotCands b, x ∉ cont := by
+  unfold topCont
+  rw [List.find?_eq_none]
+  simp
+
+/-- **Top continuing candidate.**  At every count, every paper whose ballot has no shared rank rests with
+    the highest-ranked candidate on it that is still continuing (a key of the allocation), and lies on the
+    exhausted pile (`none`) only when no candidate on it continues. -/
+theorem rests_with_top_continuing {E : Engine} (hE : EngineOK E) {cfg : Cfg} {inp : Input} {ds : List Draw} {st : St}
+    (hr : Reach E cfg inp ds st) (hf : st.final = false) :
+    ∀ hp ∈ st.alloc, ∀ bw ∈ hp.2, noShared bw.1 = true → hp.1 = topCont bw.1 (continuing st.alloc) :=
+  (reach_inv hE hr).rests hf
+
+/-- in particular: exhausted only when none remains -/
+theorem exhausted_only_when_none_remains {E : Engine} (hE : EngineOK E) {cfg : Cfg} {inp : Input} {ds : List Draw}
+    {st : St} (hr : Reach E cfg inp ds st) (hf : st.final = false) {p : Pile} (hp : (none, p) ∈ st.alloc)
+    {bw : Ballot × Rat} (hbw : bw ∈ p) (hns : noShared bw.1 = true) :
+    ∀ c ∈ ballotCands bw.1, c ∉ continuing st.alloc :=
+  topCont_none_iff.mp (rests_with_top_continuing hE hr hf _ hp bw hbw hns).symm
+
+/-! ## election only by quota or last standing -/
+
+/-- **Election discipline.**  A count elects either through the elect-all-remaining shortcut — only without
+    `mandatory_quota`, then exactly the continuing candidates are elected and the seats are exactly filled —
+    or by quota: then a finite positive quota `q` is in force and every elected candidate continues, gets
+    `k ≥ 1` seats and holds at least `k·q` votes (and stays within its maximum). -/
+theorem elected_only_by_quota_or_last_standing {E : Engine} (hE : EngineOK E) {cfg : Cfg} {inp : Input}
+    {ds : List Draw} {st : St} (hr : Reach E cfg inp ds st) (hf : st.final = false) {out : CountOut} {ds' : List Draw}
+    (h : nextCount E cfg st.alloc inp.nSeats (totalVotes inp.votes) st.seats inp.maxS st.draws = .ok (out, ds')) :
+    (out.shortcut = true ∧ cfg.mandatory = false ∧ out.elected.map (·.1) = (sortDesc (totalsInPlay st.alloc)).map (·.1) ∧
+        (∀ c, c ∈ out.elected.map (·.1) ↔ c ∈ continuing st.alloc) ∧
+        sumSeats st.seats + sumSeats out.elected = inp.nSeats) ∨
+    (out.shortcut = false ∧ ∀ ck ∈ out.elected, ∃ q, computeQuota cfg (totalVotes inp.votes) inp.nSeats = some q ∧ 0 < q ∧
+        ck.1 ∈ continuing st.alloc ∧ 1 ≤ ck.2 ∧ (ck.2 : Rat) * q ≤ totalOf st.alloc ck.1 ∧
+        ∀ k, maxGet inp.maxS ck.1 = some k → seatsGet st.seats ck.1 + ck.2 ≤ k) := by
+  have hk := (reach_inv hE hr).keys hf
+  obtain ⟨hle, hcase⟩ := nextCount_cases h
+  cases hcase with
+  | shortcut hs he =>
+    left
+    obtain ⟨_, h2, _, _, h5, _⟩ := electAll_spec he
+    have hm : cfg.mandatory = false := by
+      unfold shortcutCond at hs
+      simp only [Bool.and_eq_true, Bool.not_eq_true'] at hs
+      exact hs.2
+    have hkeys : out.elected.map (·.1) = (sortDesc (totalsInPlay st.alloc)).map (·.1) := by
+      rw [h5]; simp [availSeats, List.map_map, Function.comp_def]
+    refine ⟨h2, hm, hkeys, ?_, shortcut_fills hs he hle⟩
+    intro c
+    rw [hkeys, ← keys_totalsInPlay]
+    exact ((sortDesc_perm (totalsInPlay st.alloc)).map (·.1)).mem_iff
+  | election qv hq hpos el hel hne hout =>
+    right
+    obtain ⟨_, _, _, _, he1, _, he3⟩ := afterElection_inv hout
+    refine ⟨he3, ?_⟩
+    intro ck hck
+    rw [he1] at hck
+    exact ⟨qv, hq, hpos, (election_facts hk hpos hel).2 ck hck⟩
+  | elimination hout =>
+    right
+    obtain ⟨_, _, _, _, he1, he2⟩ := afterElimination_inv hout
+    exact ⟨he2, by rw [he1]; intro ck hck; cases hck⟩
+
+/-! ## elimination of exactly the configured number of lowest continuing candidates -/
+
+/-- `_retained_count` for a negative `eliminate_step` -/
+theorem retained_count_formula {s : Int} (hs : s < 0) (len : Nat) :
+    (retainedCount s len : Int) = max ((len : Int) + s) 1 := retainedCount_neg hs len
+
+/-- **Elimination discipline.**  When a count elects nobody (and is not the shortcut), with
+    `eliminate_step = s < 0`: the eliminated candidates are continuing candidates, their number is exactly
+    `#continuing − max(#continuing + s, 1)`, each of them holds strictly fewer votes than every continuing
+    candidate that is kept, the new continuing set is the old one without them — and the exhausted pile
+    stays in place. -/
+theorem eliminates_exactly_lowest {E : Engine} (hE : EngineOK E) {cfg : Cfg} {inp : Input} {ds : List Draw} {st : St}
+    (hr : Reach E cfg inp ds st) (hf : st.final = false) {out : CountOut} {ds' : List Draw}
+    (h : nextCount E cfg st.alloc inp.nSeats (totalVotes inp.votes) st.seats inp.maxS st.draws = .ok (out, ds'))
+    (hs : out.shortcut = false) (hel : out.elected = []) {s : Int} (hstep : cfg.step = some s) (hneg : s < 0) :
+    (∀ x ∈ out.eliminated, x ∈ continuing st.alloc) ∧
+    out.eliminated.length = (continuing st.alloc).length - retainedCount s (continuing st.alloc).length ∧
+    (∀ x ∈ out.eliminated, ∀ y ∈ continuing st.alloc, y ∉ out.eliminated → totalOf st.alloc x < totalOf st.alloc y) ∧
+    continuing out.alloc = (continuing st.alloc).filter (fun c => decide (c ∉ out.eliminated)) ∧
+    (none ∈ allocKeys st.alloc → none ∈ allocKeys out.alloc) := by
+  have hk := (reach_inv hE hr).keys hf
+  have hci := count_inv hE hk h hs
+  obtain ⟨_, hcase⟩ := nextCount_cases h
+  have hnd : ((totalsInPlay st.alloc).map (·.1)).Nodup := by rw [keys_totalsInPlay]; exact continuing_nodup hk
+  have hout : afterElimination E st.alloc cfg.step st.draws = .ok (out, ds') := by
+    cases hcase with
+    | shortcut hs' he => rw [(electAll_spec he).2.1] at hs; cases hs
+    | election qv hq hpos el hel' hne hout =>
+      obtain ⟨_, _, _, _, he1, _, _⟩ := afterElection_inv hout
+      exact absurd (he1 ▸ hel) hne
+    | elimination hout => exact hout
+  obtain ⟨retained, hsel, he, _, _, _⟩ := afterElimination_inv hout
+  rw [hstep] at hsel
+  have hes := elim_spec hneg hsel
+  rw [← he] at hes
+  refine ⟨?_, ?_, ?_, hci.cont_eq, hci.keep_none⟩
+  · intro x hx; rw [← keys_totalsInPlay]; exact hes.sub x hx
+  · have := hes.count hnd
+    rw [← keys_totalsInPlay, List.length_map]; exact this
+  · intro x hx y hy hyn
+    have hx' := hes.sub x hx
+    rw [← keys_totalsInPlay] at hy
+    obtain ⟨px, hpx, hxe⟩ := List.mem_map.mp hx'
+    obtain ⟨py, hpy, hye⟩ := List.mem_map.mp hy
+    have h1 := totalsInPlay_total hk hpx
+    have h2 := totalsInPlay_total hk hpy
+    have := hes.lowest hnd x hx y hy hyn px.2 py.2 (by rw [← hxe]; exact hpx) (by rw [← hye]; exact hpy)
+    unfold totalOf
+    rw [← hxe, ← hye, ← h1, ← h2]; exact this
+
+/-- **The exhausted pile is never a contender.**  Who is retained at an elimination does not depend on the
+    exhausted pile at all: replacing its content by anything leaves the ranking of the contenders unchanged. -/
+theorem exhausted_pile_never_contender (a : Alloc) (p' : Pile) (step : Option Int) :
+    selectRetained step (totalsInPlay (allocSetPile a none p')) = selectRetained step (totalsInPlay a) := by
+  have : totalsInPlay (allocSetPile a none p') = totalsInPlay a := by
+    induction a with
+    | nil => rfl
+    | cons y ys ih =>
+      obtain ⟨h, p⟩ := y
+      cases h with
+      | none => simp [allocSetPile, totalsInPlay]
+      | some c =>
+        simp only [allocSetPile, reduceCtorEq, if_false, totalsInPlay, List.filterMap_cons] at ih ⊢
+        rw [ih]
+  rw [this]
+
+/-- After an election by quota the only candidates removed are those just elected that reached their maximum. -/
+theorem removed_after_election_are_elected {E : Engine} {cfg : Cfg} {a : Alloc} {nSeats : Nat} {total : Rat}
+    {prev maxS : Seats} {ds ds' : List Draw} {out : CountOut}
+    (h : nextCount E cfg a nSeats total prev maxS ds = .ok (out, ds')) (hs : out.shortcut = false)
+    (hne : out.elected ≠ []) :
+    out.eliminated = fullyElected out.elected prev maxS ∧ ∀ c ∈ out.eliminated, c ∈ out.elected.map (·.1) := by
+  obtain ⟨_, hcase⟩ := nextCount_cases h
+  cases hcase with
+  | shortcut hs' he => rw [(electAll_spec he).2.1] at hs; cases hs
+  | election qv hq hpos el hel hne' hout =>
+    obtain ⟨_, _, _, _, he1, he2, _⟩ := afterElection_inv hout
+    rw [he1, he2]
+    refine ⟨rfl, ?_⟩
+    intro c hc
+    unfold fullyElected at hc
+    obtain ⟨ck, hck, rfl⟩ := List.mem_map.mp hc
+    exact List.mem_map.mpr ⟨ck, (List.mem_filter.mp hck).1, rfl⟩
+  | elimination hout =>
+    obtain ⟨_, _, _, _, he1, _⟩ := afterElimination_inv hout
+    exact absurd he1 hne
+
+/-! ## non-vacuity: a concrete run meeting the hypotheses -/
+
+section Example
+/-- ballots  a>b ×10, b ×3, c ×4, c>b ×1, two seats, Droop quota 7: a is elected with a surplus of 3 that
+    goes to b at weight 3/10 per paper -/
+def exVotes : Profile := [([.one 0, .one 1], 10), ([.one 1], 3), ([.one 2], 4), ([.one 2, .one 1], 1)]
+def exCfg : Cfg := { quota := some VL.Gen.Quota.droop, acceptEqual := true, mandatory := false, step := some (-1) }
+def exInp : Input := selectorInput exVotes 2
+
+example : WFVotes exVotes := by intro bw hbw; simp [exVotes] at hbw; rcases hbw with h | h | h | h <;> rw [h] <;> decide
+/-- the state after one count of the example: not final, one seat by quota, 11 votes still held, b and c
+    continue and b holds 3 + 10·(3/10) = 6 -/
+def exCheck : Bool :=
+  match initState gregory exInp [] with
+  | .ok st0 =>
+    match runCounts gregory exCfg exInp 1 st0 with
+    | .ok st => !st.final && decide (st.byQuota = 1) && decide (held st.alloc = 11) &&
+        decide (continuing st.alloc = [1, 2]) && decide (totalOf st.alloc 1 = 6) &&
+        decide (runQuota exCfg exInp = 7)
+    | .error _ => false
+  | .error _ => false
+
+example : exCheck = true := by decide +kernel
+
+/-- second count: nobody holds the quota, c (5 votes) is the one lowest candidate and is eliminated, its four
+    truncated papers exhaust; third count: b is the last standing for the last seat -/
+def exCheck2 : Bool :=
+  match initState gregory exInp [] with
+  | .ok st0 =>
+    (match runCounts gregory exCfg exInp 1 st0 with
+      | .ok st =>
+        (match nextCount gregory exCfg st.alloc exInp.nSeats (totalVotes exInp.votes) st.seats exInp.maxS st.draws with
+          | .ok (out, _) => !out.shortcut && decide (out.elected = []) && decide (out.eliminated = [2]) &&
+              decide (continuing out.alloc = [1]) && decide (totalOf out.alloc 1 = 7) &&
+              decide (pileTotal (allocPile out.alloc none) = 4)
+          | .error _ => false)
+      | .error _ => false) &&
+    (match runCounts gregory exCfg exInp 5 st0 with
+      | .ok st => st.final && decide (st.seats = [(0, 1), (1, 1)]) && decide (st.byQuota = 1)
+      | .error _ => false)
+  | .error _ => false
+
+example : exCheck2 = true := by decide +kernel
+end Example
 
 end VL.C03
